@@ -598,3 +598,34 @@ pub fn wrapping_fold(s: &str, indent: usize, indent_step: usize, wrap_col: usize
 pub fn wrapping_first_line_leading_spaces(s: &str) -> usize {
     crate::wrapping::first_line_leading_spaces(s)
 }
+
+// ---- C18: validation path lookup ----
+
+/// `entries`: recorded paths (segments as (is_index, name)) with an id; returns the id and the
+/// resolved leaf name found for `target`.
+#[cfg(any(feature = "garde", feature = "validator"))]
+pub fn pathmap_search(entries: &[(Vec<(bool, String)>, u32)], target: &[(bool, String)]) -> Option<(u32, String)> {
+    use crate::path_map::{PathKey, PathKind, PathMap, PathSegment};
+    fn key(segs: &[(bool, String)]) -> PathKey {
+        let mut k = PathKey::empty();
+        for (is_index, name) in segs {
+            k = k.join(PathSegment {
+                kind: if *is_index { PathKind::Index } else { PathKind::Key },
+                name: name.clone(),
+            });
+        }
+        k
+    }
+    let mut m = PathMap::new();
+    for (segs, id) in entries {
+        let l = crate::Location::new(*id as usize, 1);
+        m.insert(
+            key(segs),
+            crate::location::Locations {
+                reference_location: l,
+                defined_location: l,
+            },
+        );
+    }
+    m.search(&key(target)).map(|(locs, leaf)| (locs.reference_location.line() as u32, leaf))
+}
